@@ -14,6 +14,7 @@ mod c19;
 mod canon;
 mod wrap;
 mod common;
+mod dml;
 mod gen_sql;
 mod kwhelpers;
 mod cursor;
@@ -83,6 +84,7 @@ fn main() {
                 "dtparse" => c18::corr_parse(dir, seed, &tier),
                 "dtprint" => c18::corr_print(dir, seed, &tier),
                 "queries" => query::corr(dir, seed, &tier),
+                "dml" => dml::corr(dir, seed, &tier),
                 _ => { eprintln!("no corr stream {name}"); std::process::exit(2) }
             };
             rep.emit();
@@ -100,9 +102,10 @@ fn main() {
             println!("TOKENS {:?}", match tokenize(d.as_ref(), true, &args[3]) { G::Val(t) => format!("{t:?}"), G::Panic(m) => m });
         }
         Some("astgen-stats") => {
-            let g = astgen::AstGen::load();
+            let mut g = astgen::AstGen::load();
+            g.realistic = true;
             let mut errs = vec![];
-            let sts = g.statements(4000, 12345, &mut errs);
+            let sts = g.statements(5000, 12345, &mut errs);
             let ds = all_dialects();
             let (mut ok, mut panics, mut fix) = (0, 0, 0);
             let mut shown = 0;
